@@ -857,6 +857,22 @@ def render_prog(p, mode="twin"):
             p.id, rs(kind), p.id, p.id, srcs, brs, rs(",".join(sorted(p.tags | {"noalloc"}))), rs(noalloc_transform(dsl)), rs(noalloc_transform(ref_body)), p.max_id)
         return noalloc_transform(m_fn + "\n" + r_fn), entry
     # the invocation stands in different syntactic / item contexts (only the macro side; the reference stays plain)
+    # operands of the sequential macros are part of the caller's function body: they may `continue` / `break` a loop of the
+    # caller (the jump is never taken here, it only has to compile)
+    loop_ctx = kind in ("join", "try_join") and p.id % 5 == 3 and not p.branches[0][1]
+    if loop_ctx:
+        src0 = p.branches[0][0]
+        jump = "continue" if p.id % 2 else "break"
+        dsl_m = dsl.replace(src0, "(if __lp > 5 { %s } else { %s })" % (jump, src0), 1)
+        stmt = "for __lp in 0..1u8 { let __res: %s = %s! { %s }; return dbg(__res); } unreachable!()" % (rty, kind, dsl_m)
+        m_fn = "pub fn m_%d() -> String { %s }" % (p.id, stmt)
+        r_fn = "pub fn r_%d() -> String { dbg({ %s }) }" % (p.id, ref_body)
+        p.tags.add("sp:operand_jumps_to_callers_loop")
+        srcs = ", ".join("(%d, %d)" % s for s in p.srcs)
+        brs = ", ".join("(%d, %d)" % b[4] for b in p.branches)
+        entry = "Twin { id: %d, kind: %s, m: m_%d, r: r_%d, srcs: &[%s], branches: &[%s], tags: %s, text: %s, reference: %s, max_id: %d }" % (
+            p.id, rs(kind), p.id, p.id, srcs, brs, rs(",".join(sorted(p.tags))), rs(dsl_m), rs(ref_body), p.max_id)
+        return m_fn + "\n" + r_fn, entry
     if asy:
         stmt = "run_async(async { let __res: %s = %s! { %s }.await; dbg(__res) })" % (rty, call_name(p.id, kind), dsl)
         r_fn = "pub fn r_%d() -> String { run_async(async { dbg({ %s }) }) }" % (p.id, ref_body)
